@@ -263,7 +263,8 @@ class ShuffleReduce(Expr):
         if self.shuffle_by_index is not False:
             if is_series_like(self._meta) and is_series_like(self.frame._meta):
                 shuffled = shuffled[shuffled.columns[0]]
-                if shuffled.name == "__series__":
+                if shuffled.name != self.frame._meta.name:
+                    # "__series__", or NaN: the label None among string labels
                     shuffled = RenameSeries(shuffled, self.frame._meta.name)
             elif is_index_like(self._meta):
                 column = shuffled.columns[0]
